@@ -336,6 +336,11 @@ impl ShmWrite for ShmWriter {
             };
             generation.store(gen, atomic::Ordering::Release);
 
+            // The store above only keeps *earlier* accesses from being reordered after it. This
+            // fence keeps the writes to the ClockErrorBound data below from becoming visible
+            // before the odd generation number does (they can on weakly ordered CPUs otherwise).
+            atomic::fence(atomic::Ordering::Release);
+
             self.ceb.write(*ceb);
 
             // Mark the end of the update into the memory segment by incrementing the generation
